@@ -494,6 +494,7 @@ package op
 //@ func op.ParseDeviceCodeRequest
 //@   requires valid(r) && valid(o)
 //@   ensures fail-closed: err != nil ==> result0 == nil
+//@   ensures ok: err == nil ==> result0 != nil
 //@   ensures known-client-with-grant: err == nil ==> callres("op.OPStorage.GetClientByClientID", 1) == nil
 //@        && grantRegistered(callres("op.OPStorage.GetClientByClientID", 0), oidc.GrantTypeDeviceCode)
 //@        && result0 != nil && result0.ClientID == callres("op.OPStorage.GetClientByClientID", 0).GetID()
@@ -512,7 +513,8 @@ package op
 //@        && result0.AuthMethod() == oidc.AuthMethodPost ==> s.provider.AuthMethodPostSupported()
 
 //@ func op.LegacyServer.authenticateResourceClient
-//@   requires valid(s) && valid(s.provider) && valid(cc)
+//@   requires valid(s) && valid(s.provider)
+//@   modifies os(s.provider), wallclock
 //@   ensures authenticated: err == nil ==> authenticated(result0)
 //@   ensures fail-closed: err != nil ==> result0 == ""
 
@@ -555,5 +557,5 @@ package op
 //@ func op.ValidateTokenExchangeRequest
 //@   requires valid(oidcTokenExchangeRequest) && valid(exchanger)
 //@   ensures fail-closed: err != nil ==> result0 == nil && result1 == nil
-//@   ensures authenticated: err == nil ==> valid(result1) && authenticated(result1.GetID())
+//@   ensures authenticated: err == nil ==> valid(result0) && valid(result1) && authenticated(result1.GetID())
 //@   ensures grant-registered: err == nil ==> grantRegistered(result1, oidc.GrantTypeTokenExchange)
